@@ -189,6 +189,9 @@ pub struct Observations {
     pub log_text: Option<Vec<String>>,
     pub sim_ms: u64,
     pub zones: Zones,
+    /// Cache contents at each upstream-query trace point (parallel to `trace`).
+    pub trace_cache: Vec<Vec<CachedRec>>,
+    pub address_lookups: Vec<simseam::world::AddressLookup>,
 }
 
 pub fn snapshot_cache(cache: &SharedCache) -> Vec<CachedRec> {
@@ -261,6 +264,16 @@ pub fn run(plan: &ResolvePlan, exec: &Exec, want_log: bool) -> Observations {
         world::with(|w| w.net.set_internet(net.clone()));
 
         let cache = SharedCache::with_desired_size(plan.knobs.cache_size.max(1));
+        let trace_cache: Rc<RefCell<Vec<Vec<CachedRec>>>> = Rc::new(RefCell::new(Vec::new()));
+        {
+            let tc = trace_cache.clone();
+            let c2 = cache.clone();
+            world::with(|w| {
+                w.on_upstream_query = Some(Box::new(move |_| {
+                    tc.borrow_mut().push(snapshot_cache(&c2));
+                }));
+            });
+        }
         for r in &plan.cache_preload {
             cache.insert(&r.to_rr());
         }
@@ -330,7 +343,10 @@ pub fn run(plan: &ResolvePlan, exec: &Exec, want_log: bool) -> Observations {
             });
         }
         let sim_ms = simseam::clock::elapsed_ms();
-        world::with(|w| w.net.clear_internet());
+        world::with(|w| {
+            w.net.clear_internet();
+            w.on_upstream_query = None;
+        });
         let w = world::uninstall().expect("HARNESS: world vanished");
         simseam::clock::unset();
         let exchanges = std::mem::take(&mut net.borrow_mut().exchanges);
@@ -347,6 +363,8 @@ pub fn run(plan: &ResolvePlan, exec: &Exec, want_log: bool) -> Observations {
             log_text: w.log_text.clone(),
             sim_ms,
             zones: Zones::new(),
+            trace_cache: trace_cache.take(),
+            address_lookups: w.address_lookups.clone(),
         }
     });
     drop(rt);
